@@ -33,6 +33,16 @@ fn main() {
             }
         }));
     }
+    // un-quotiented presentations of strict diagrams (every node occurrence its own node, chained by pending
+    // unifications): singles, and all pairs of a smaller universe
+    let xs1 = if quick { Spec::open(3, 1, 2, 2, 2, 2, 2) } else { Spec::open(2, 2, 2, 2, 2, 2, 2) };
+    let xu1 = xs1.universe();
+    ctx.run_slice(Slice::new(format!("dagger/to_strict-exploded[{}]", xs1.name()), xu1.count(), |i, loc| check_single(&PLax::exploded(&xu1.get_open(i)), loc)));
+    let (xs2l, xs2r) = if quick { (Spec::open(2, 1, 1, 2, 1, 1, 2), Spec::open(2, 1, 1, 2, 1, 2, 1)) } else { (Spec::open(2, 1, 2, 2, 1, 2, 2), Spec::open(2, 1, 2, 2, 1, 2, 2)) };
+    let xu2l: Vec<PLax<u8, u8>> = xs2l.universe().all_open().iter().map(PLax::exploded).collect();
+    let xu2r: Vec<PLax<u8, u8>> = xs2r.universe().all_open().iter().map(PLax::exploded).collect();
+    let nx2 = xu2r.len() as u64;
+    ctx.run_slice(Slice::new(format!("pairs-exploded[{} x {}]", xs2l.name(), xs2r.name()), xu2l.len() as u64 * nx2, |i, loc| check_pair(&xu2l[(i / nx2) as usize], &xu2r[(i % nx2) as usize], loc)));
     let objs: Vec<Vec<u8>> = lists(2, 3).into_iter().map(|l| l.into_iter().map(|x| x as u8).collect()).collect();
     let no = objs.len() as u64;
     ctx.run_slice(Slice::new("identity/twist/singleton[lists<=3 over 2 labels ^2]", no * no, |i, loc| check_constructors(&objs[(i / no) as usize], &objs[(i % no) as usize], loc)));
